@@ -7,8 +7,6 @@ import RV.C16.LemTsvStr
 namespace RV.C16
 open Spec.Tsv
 
-theorem consOk_map (c : Char) (k : Except Err (Str × Str)) {s rest} (h : k = .ok (s, rest)) :
-    consOk c k = .ok (c :: s, rest) := by subst h; rfl
 
 theorem jsonScanP_raw {c : Char} (h1 : c ≠ '"') (h2 : c ≠ '\\') (h3 : ¬ c.toNat < 0x20) (tail : Str) :
     jsonScanP none (c :: tail) = consOk c (jsonScanP none tail) := by
@@ -62,7 +60,7 @@ theorem char_not_surrogate (c : Char) : ¬ (0xD800 ≤ c.toNat ∧ c.toNat ≤ 0
   show ¬ (_ ≤ c.val.toNat ∧ c.val.toNat ≤ _)
   omega
 
-theorem emitUnit_char (c : Char) (k : Except Err (Str × Str)) : emitUnit c.toNat k = consOk c k := by
+theorem emitUnit_char (c : Char) (k : Scan) : emitUnit c.toNat k = consOk c k := by
   simp [emitUnit, chrOf_toNat]
 
 /-- the `\uXXXX` spelling of any character — a surrogate pair above U+FFFF — is read back as that character -/
@@ -129,12 +127,12 @@ theorem jsonScanP_jsonSpellChar (k : Nat) (c : Char) (tail : Str) :
     · next h => obtain ⟨-, rfl⟩ := h; exact jsonScanP_short (by decide) (by decide) tail
     · exact jsonScanP_pyEscChar c tail
 
-theorem jsonScanP_close (rest : Str) : jsonScanP none ('"' :: rest) = .ok ([], rest) := by
+theorem jsonScanP_close (rest : Str) : jsonScanP none ('"' :: rest) = .ok ([], rest, false) := by
   rw [jsonScanP.eq_def]; simp
 
 theorem jsonScan_escAll {f : Char → Str}
     (hf : ∀ c tail, jsonScanP none (f c ++ tail) = consOk c (jsonScanP none tail)) (s rest : Str) :
-    jsonScan (escAll f s ++ '"' :: rest) = .ok (s, rest) := by
+    jsonScan (escAll f s ++ '"' :: rest) = .ok (s, rest, false) := by
   unfold jsonScan
   induction s with
   | nil => exact jsonScanP_close rest
@@ -143,7 +141,7 @@ theorem jsonScan_escAll {f : Char → Str}
     rw [hf, ih]; rfl
 
 theorem jsonScan_jsonSpell (ks : List Nat) (s rest : Str) :
-    jsonScan (jsonSpell ks s ++ '"' :: rest) = .ok (s, rest) := by
+    jsonScan (jsonSpell ks s ++ '"' :: rest) = .ok (s, rest, false) := by
   unfold jsonScan
   induction s generalizing ks with
   | nil => exact jsonScanP_close rest
@@ -153,7 +151,7 @@ theorem jsonScan_jsonSpell (ks : List Nat) (s rest : Str) :
 
 theorem jsonLoadsStr_pyDumpsStr (ascii : Bool) (s : Str) : jsonLoadsStr (pyDumpsStr ascii s) = .ok s := by
   unfold jsonLoadsStr pyDumpsStr
-  have : jsonScan (escAll (if ascii then pyEscCharAscii else pyEscChar) s ++ ['"']) = .ok (s, []) := by
+  have : jsonScan (escAll (if ascii then pyEscCharAscii else pyEscChar) s ++ ['"']) = .ok (s, [], false) := by
     cases ascii
     · exact jsonScan_escAll jsonScanP_pyEscChar s []
     · exact jsonScan_escAll jsonScanP_pyEscCharAscii s []
